@@ -1,15 +1,19 @@
 #!/bin/sh
-# Run once after a fresh restore, offline: builds the whole Coq development (full .vo),
-# the extracted model drivers and the Rust harness from files on disk only.
-set -e
+# Run once after a fresh restore, offline: pre-builds the whole Coq development (full .vo), the
+# extracted model drivers and the Rust harness binaries from files on disk only.  It is a
+# best-effort warm-up: every check rebuilds exactly what it needs and reports a failure itself,
+# so one file that does not build must not stop the others from being prepared.
 cd "$(dirname "$0")"
 export CARGO_NET_OFFLINE=true
-python3 tools/gen_constants.py
-
-
-COQMAKE_TIMEOUT=3000 tools/coqmake > .build_coq.log 2>&1 || { tail -50 .build_coq.log; exit 1; }
-
+python3 tools/gen_constants.py || exit 1
+COQMAKE_TIMEOUT=3000 tools/coqmake -k > .build_coq.log 2>&1 || { echo "setup: some Coq files did not build (see .build_coq.log):"; grep -B2 -A6 "^Error" .build_coq.log | head -40; }
 [ -f harness/Cargo.lock ] || cp /repo/Cargo.lock harness/Cargo.lock
-(cd harness && RUSTFLAGS="--cfg rsdd_verif" timeout 3000 cargo build --release --offline --bins) > .build_cargo.log 2>&1 || { tail -50 .build_cargo.log; exit 1; }
-python3 tools/build_drivers.py
+: > .build_cargo.log
+(cd harness && RUSTFLAGS="--cfg rsdd_verif" timeout 3000 cargo build --release --offline --lib >> ../.build_cargo.log 2>&1) || { tail -30 .build_cargo.log; exit 1; }
+for f in harness/src/bin/*.rs harness/src/bin/*/main.rs; do
+  [ -f "$f" ] || continue
+  b=$(basename "$f" .rs); [ "$b" = "main" ] && b=$(basename "$(dirname "$f")")
+  (cd harness && RUSTFLAGS="--cfg rsdd_verif" timeout 3000 cargo build --release --offline --bin "$b" >> ../.build_cargo.log 2>&1) || echo "setup: harness binary $b did not build (see .build_cargo.log)"
+done
+python3 tools/build_drivers.py || echo "setup: some model drivers did not build"
 echo "setup ok"
